@@ -13,11 +13,11 @@ import (
 // ---------------------------------------------------------------------------- value pools
 
 var strPool = map[string][]string{
-	"hostname":       {"Swat4 Server", "it's <b>", "a=b", "x and y", "[c=ff0000]Host", "'quoted'", "!", " and "},
+	"hostname":       {"Swat4 Server", "it's <b>", "a=b", "x and y", "[c=ff0000]Host", "'quoted'", "!", " and ", "H?st ??"},
 	"gamevariant":    {"SWAT 4", "SWAT 4X", "SEF"},
 	"gamever":        {"1.0", "1.1"},
 	"gametype":       {"VIP Escort", "CO-OP", "Barricaded Suspects"},
-	"mapname":        {"A-Bomb Nightclub", "Food Wall Restaurant", "-EXP- Stetchkov Warehouse"},
+	"mapname":        {"A-Bomb Nightclub", "Food Wall Restaurant", "-EXP- Stetchkov Warehouse", "Caf? Bar"},
 	"tocreports":     {"", "24/28"},
 	"weaponssecured": {"", "17/19"},
 }
@@ -225,6 +225,11 @@ func randClause(rng *rand.Rand, info map[string]string) clauseGen {
 	if rng.Intn(3) > 0 { // prefer a value of the field's own kind taken from the record
 		if raw, ok := info[f.name]; ok {
 			if _, isStr := strPool[f.name]; isStr || f.name == "hostname" {
+				// a stored '?' may stand for a byte the reporter could not keep (values are stored as valid UTF-8): the operand
+				// with such a byte in its place is a DIFFERENT string and must be compared as the bytes it is
+				if strings.Contains(raw, "?") && rng.Intn(2) == 0 {
+					raw = strings.ReplaceAll(raw, "?", pick(rng, []string{"\xe9", "\xff", "\xe8\xe9", "\xc3"}))
+				}
 				v = strVal(raw)
 			} else if n, err := strconv.ParseInt(raw, 10, 64); err == nil {
 				v = intVal(n)
